@@ -6,7 +6,9 @@ def run(c):
     return mvs_common.run(
         c, "C11",
         rule=("universes as for C10; sequences of 1-4 operations (get with every query kind: exact version, vX / vX.Y prefix, "
-              "< <= > >= ranges, latest, bare path, bare major, patch, upgrade, branch refs incl. pseudo-versions, plus "
+              "< <= > >= ranges, latest, bare path, bare major, patch, upgrade, branch refs (resolved by the MODEL over the commit "
+              "history the harness hands it: refs, revisions with time stamps, the order History() yields, tagged revisions; "
+              "pseudo-versions constructed by the model), plus "
               "unresolvable and malformed queries; tidy; upgrade-all; build list) applied to root requirement sets of 0-5 "
               "names incl. two names for one path and names that collide with the ones `get` would choose; each edit is run "
               "three times for determinism, re-resolved with BuildList, and repeated on its own result; every Get / Tidy / "
